@@ -20,6 +20,8 @@ type hostilePool struct {
 	base    string
 	mu      sync.Mutex
 	open    map[int64]time.Time // requests the client has not given up yet
+	tags    map[int64]string    // the tag (last path element) of an open request: which input named the URL
+	floodBy map[string]int64    // bytes of the endless stream taken, per tag
 	next    int64
 	served  int64 // bytes of the endless stream taken by clients
 	contact int64
@@ -33,7 +35,8 @@ func newHostilePool() *hostilePool {
 	ln, err := net.Listen("tcp", "127.0.0.1:0")
 	must(err)
 
-	p := &hostilePool{ln: ln, base: "http://" + ln.Addr().String(), open: map[int64]time.Time{}}
+	p := &hostilePool{ln: ln, base: "http://" + ln.Addr().String(), open: map[int64]time.Time{}, tags: map[int64]string{},
+		floodBy: map[string]int64{}}
 
 	mux := http.NewServeMux()
 	mux.HandleFunc("/", p.serve)
@@ -43,12 +46,13 @@ func newHostilePool() *hostilePool {
 	return p
 }
 
-func (p *hostilePool) enter() int64 {
+func (p *hostilePool) enter(tag string) int64 {
 	atomic.AddInt64(&p.contact, 1)
 	p.mu.Lock()
 	defer p.mu.Unlock()
 	p.next++
 	p.open[p.next] = time.Now()
+	p.tags[p.next] = tag
 
 	return p.next
 }
@@ -56,11 +60,45 @@ func (p *hostilePool) enter() int64 {
 func (p *hostilePool) leave(id int64) {
 	p.mu.Lock()
 	delete(p.open, id)
+	delete(p.tags, id)
 	p.mu.Unlock()
 }
 
+// heldTags lists the tags of the requests still open; floodTags those that took more than limit bytes.
+func (p *hostilePool) heldTags() []string {
+	p.mu.Lock()
+	defer p.mu.Unlock()
+
+	var out []string
+	for _, t := range p.tags {
+		out = append(out, t)
+	}
+
+	return out
+}
+
+func (p *hostilePool) floodTags(limit int64) []string {
+	p.mu.Lock()
+	defer p.mu.Unlock()
+
+	var out []string
+
+	for t, n := range p.floodBy {
+		if n > limit {
+			out = append(out, t)
+		}
+	}
+
+	return out
+}
+
 func (p *hostilePool) serve(w http.ResponseWriter, r *http.Request) {
-	id := p.enter()
+	tag := r.URL.Path[strings.LastIndex(r.URL.Path, "/")+1:]
+	if strings.HasPrefix(r.URL.Path, "/redirect") {
+		tag = "redirect"
+	}
+
+	id := p.enter(tag)
 	defer p.leave(id)
 
 	gone := r.Context().Done()
@@ -94,6 +132,9 @@ func (p *hostilePool) serve(w http.ResponseWriter, r *http.Request) {
 			}
 
 			atomic.AddInt64(&p.served, int64(len(chunk)))
+			p.mu.Lock()
+			p.floodBy[tag] += int64(len(chunk))
+			p.mu.Unlock()
 		}
 	case strings.HasPrefix(r.URL.Path, "/hugelen"):
 		w.Header().Set("Content-Length", "1099511627776")
@@ -130,13 +171,13 @@ func (p *hostilePool) contacts() int64 { return atomic.LoadInt64(&p.contact) }
 func (p *hostilePool) flooded() int64  { return atomic.LoadInt64(&p.served) }
 
 // substitute puts the pool's URLs in place of the placeholders "@HOSTILE:<kind>@".
-func (p *hostilePool) substitute(b []byte) []byte {
+func (p *hostilePool) substitute(b []byte, tag string) []byte {
 	if !bytes.Contains(b, []byte("@HOSTILE:")) {
 		return b
 	}
 
 	for _, k := range hostileKinds {
-		b = bytes.ReplaceAll(b, []byte("@HOSTILE:"+k+"@"), []byte(p.base+"/"+k+"/x"))
+		b = bytes.ReplaceAll(b, []byte("@HOSTILE:"+k+"@"), []byte(p.base+"/"+k+"/"+tag))
 	}
 
 	return b
